@@ -153,18 +153,17 @@ def decOneHop (data : Bytes) : Except Err PathV :=
           | some i, some h1, some h2 => .ok (.onehop i h1 h2)
           | _, _, _ => .error .panic
 
-/-- `epic.Path.DecodeFromBytes` -/
+/-- `epic.Path.DecodeFromBytes` (`len(b) < MetadataLen` is the failing pattern match) -/
 def decEpic (data : Bytes) : Except Err (PathV × Nat) :=
-  if data.length < 16 then .error .pathDecode
-  else match data with
-    | t0 :: t1 :: t2 :: t3 :: c0 :: c1 :: c2 :: c3 :: p0 :: p1 :: p2 :: p3 ::
-        l0 :: l1 :: l2 :: l3 :: rest =>
-      match decRaw rest with
-      | .error e => .error e
-      | .ok (m, body, n) =>
-        .ok (.epic (beNat [t0, t1, t2, t3]) (beNat [c0, c1, c2, c3]) [p0, p1, p2, p3]
-          [l0, l1, l2, l3] m body, 16 + n)
-    | _ => .error .panic
+  match data with
+  | t0 :: t1 :: t2 :: t3 :: c0 :: c1 :: c2 :: c3 :: p0 :: p1 :: p2 :: p3 ::
+      l0 :: l1 :: l2 :: l3 :: rest =>
+    match decRaw rest with
+    | .error e => .error e
+    | .ok (m, body, n) =>
+      .ok (.epic (beNat [t0, t1, t2, t3]) (beNat [c0, c1, c2, c3]) [p0, p1, p2, p3]
+        [l0, l1, l2, l3] m body, 16 + n)
+  | _ => .error .pathDecode
 
 /-- `getPath(pathType)` + `Path.DecodeFromBytes(data[offset:offset+pathLen])`; second component
 is `Path.Len()` -/
@@ -321,5 +320,81 @@ def fixLengths (h : Hdr) (payloadLen : Nat) : Hdr :=
   { h with cmn := { h.cmn with
       hdrLen := (12 + addrHdrLen h.cmn + pathLen h.path) / 4 % 256,
       payloadLen := payloadLen % 65536 } }
+
+
+/-! ### specification vocabulary: well-formed values, reserved bits -/
+
+def Info.WF (i : Info) : Prop := i.segID < 65536 ∧ i.ts < 2^32
+def Hop.WF (h : Hop) : Prop :=
+  h.expTime < 256 ∧ h.consIn < 65536 ∧ h.consEg < 65536 ∧ h.mac.length = 6
+
+instance (i : Info) : Decidable i.WF := by unfold Info.WF; exact inferInstance
+instance (h : Hop) : Decidable h.WF := by unfold Hop.WF; exact inferInstance
+
+/-- a `scion.Raw` value: meta fields in range, a shape `Base.DecodeFromBytes` accepts, and
+exactly the bytes of its info and hop fields -/
+def RawWF (m : PathMeta.Hdr) (body : Bytes) : Prop :=
+  m.InRange ∧ match PathMeta.baseDecode m with
+    | some b => body.length = bodyLen b
+    | none => False
+
+instance (m : PathMeta.Hdr) : Decidable m.InRange := by unfold PathMeta.Hdr.InRange; exact inferInstance
+instance (m : PathMeta.Hdr) (body : Bytes) : Decidable (RawWF m body) := by
+  unfold RawWF; cases PathMeta.baseDecode m <;> exact inferInstance
+
+def PathWF : PathV → Prop
+  | .empty => True
+  | .scion m body => RawWF m body
+  | .onehop i h1 h2 => i.WF ∧ h1.WF ∧ h2.WF
+  | .epic ts ctr p l m body => ts < 2^32 ∧ ctr < 2^32 ∧ p.length = 4 ∧ l.length = 4 ∧ RawWF m body
+
+instance (p : PathV) : Decidable (PathWF p) := by
+  cases p <;> unfold PathWF <;> exact inferInstance
+
+/-- field widths of the common header -/
+def Cmn.WF (c : Cmn) : Prop :=
+  c.version < 16 ∧ c.tc < 256 ∧ c.flowID < 2^20 ∧ c.nextHdr < 256 ∧ c.hdrLen < 256 ∧
+  c.payloadLen < 65536 ∧ c.pathType < 256 ∧ c.dstType < 16 ∧ c.srcType < 16
+
+instance (c : Cmn) : Decidable c.WF := by unfold Cmn.WF; exact inferInstance
+
+/-- 64-bit ISD-AS numbers and host addresses of the length their type declares -/
+def Addr.WF (c : Cmn) (a : Addr) : Prop :=
+  a.dstIA < 2^64 ∧ a.srcIA < 2^64 ∧ a.rawDst.length = addrLen c.dstType ∧
+  a.rawSrc.length = addrLen c.srcType
+
+instance (c : Cmn) (a : Addr) : Decidable (a.WF c) := by unfold Addr.WF; exact inferInstance
+
+/-- a well-formed SCION header value: field widths, address lengths, a well-formed path of the
+declared type, and `HdrLen` = the length the header really has (which bounds it by 1020) -/
+def Hdr.WF (h : Hdr) : Prop :=
+  h.cmn.WF ∧ Addr.WF h.cmn ⟨h.dstIA, h.srcIA, h.rawDst, h.rawSrc⟩ ∧ PathWF h.path ∧
+  h.cmn.pathType = h.path.type ∧ h.cmn.hdrLen * 4 = 12 + addrHdrLen h.cmn + pathLen h.path
+
+instance (h : Hdr) : Decidable h.WF := by unfold Hdr.WF; exact inferInstance
+
+/-- keep the `k` low bits of a byte -/
+def keepLow (k : Nat) (b : UInt8) : UInt8 := UInt8.ofNat (b.toNat % 2^k)
+
+/-- clear all but the `k` low bits of byte `pos` -/
+def clr : Nat → Nat → Bytes → Bytes
+  | _, _, [] => []
+  | 0, k, b :: r => keepLow k b :: r
+  | p+1, k, b :: r => b :: clr p k r
+
+def clearBits (l : Bytes) : List (Nat × Nat) → Bytes
+  | [] => l
+  | (p, k) :: ms => clearBits (clr p k l) ms
+
+/-- reserved bits inside the path, relative to the start of the path: (byte, low bits kept) -/
+def pathMask : PathV → List (Nat × Nat)
+  | .empty => []
+  | .scion .. => [(1, 2)]                                  -- meta line bits 18..23
+  | .onehop .. => [(0, 2), (1, 0), (8, 2), (20, 2)]      -- info flags+RSV, two hop flag bytes
+  | .epic .. => [(17, 2)]                                 -- meta line of the embedded path
+
+/-- reserved bits of a SCION header: the two RSV bytes of the common header and the path's -/
+def reservedMask (h : Hdr) : List (Nat × Nat) :=
+  (10, 0) :: (11, 0) :: (pathMask h.path).map fun (p, k) => (12 + addrHdrLen h.cmn + p, k)
 
 end Scion.Wire
